@@ -178,6 +178,8 @@ ASSUMPTIONS = [
     "pushed value for one step; concurrent / always-hoisted expressions continuously; first true branch wins)",
     "programs: 1-3 contexts, <= 12 statements per context, depth <= 3, 4-bit data; runs <= 200 clocks",
     "combinational contexts read only inputs and registered objects (no combinational loops are generated)",
+    "clocked contexts optionally carry a synchronous / asynchronous Reset of either polarity that is held inactive for the whole run (reset behaviour is C04's subject) and a run-time "
+    "step condition (input en, low in short runs): a step whose condition is false executes nothing and every target, a pushed one included, holds",
 ]
 
 _seed = [1]
